@@ -12,6 +12,8 @@ func dispatch(t *testing.T, sc scenario) result {
 		return runJoin(t, sc)
 	case 8:
 		return runPrio1(t, sc)
+	case 10:
+		return runSimple1(t, sc)
 	default:
 		return result{verdict: "unknown-family"}
 	}
